@@ -222,6 +222,17 @@ addenda11 = {'C03': ' Drop(0, l) and DropLast(0, l) return l.',
 for k, v in addenda11.items():
     e = checks[k]
     checks[k] = (e[0], e[1], e[2] + v, e[3], e[4])
+addenda12 = {'C07': ' Longer node-pool trim scenarios: eight bursts of 4-9 values, the queue keeping 1 or 2 node hooks, both pool policies.',
+ 'C08': ' Two takers on an empty queue, with and without a producer.',
+ 'C09': ' An on-demand pool (stand-by 0) whose only worker dies of a panic while a ScheduleWithTimeout caller is between two attempts.',
+ 'C16': ' Results of an interface type, some of them the nil interface.',
+ 'C17': ' A deserializer that returns a value of another type (or a typed nil) together with its error.',
+ 'C18': ' A second search over a world of three instances and the client-wiring operations (one client adopted by all three, re-adopted, left).',
+ 'C19': ' String keys of which one is the head of another, and the empty key, as first key and as tie-breaker.',
+ 'C20': ' Sum types whose products talk about structs, the empty product; Compose / Pipe over stages that change the number of values (drop all, count, double).'}
+for k, v in addenda12.items():
+    e = checks[k]
+    checks[k] = (e[0], e[1], e[2] + v, e[3], e[4])
 
 not_yet = "check not built yet in this round (see DESIGN.md §9 build order); no claim made"
 
